@@ -6,6 +6,9 @@ HERE = os.path.dirname(os.path.dirname(os.path.abspath(__file__)))
 
 # id -> (technique, level text, level note, design ref)
 CLAIMED = {
+ "C18": ("typestate/ordering of the file-replacement helper with error-chain analysis, who-may-call rules for in-place writes, must-pass-through for regeneration and write-back, provenance of advertised arguments over go/ssa",
+         "Decides that every persistent file is replaced by temp-in-same-dir -> write -> sync -> close -> rename with the rename guarded by all three successes and the target never touched before it; that no in-place create/truncate of a state path exists (named exemptions); that a new identity is generated only under os.IsNotExist of the state-file read; that every successful start writes the possibly overridden state back and advertises cert/iat-mode from it; that the cert writer/reader agree and the client accepts every advertised iat-mode. File-system behaviour under power loss is not decided.",
+         "go/types+go/ssa faithful; POSIX rename replaces atomically", "DESIGN.md section 4, C18"),
  "C19": ("pairing/dominance rules over the relay closures (defers, channel capacity vs send sites, wait-before-return), start/finish pairing, check-before-blocking reachability over go/ssa",
          "Decides the structural necessary conditions: two crossed io.Copy copiers that each defer Close of both connections and Done, an error channel that can hold every send, return only after Wait; every handler start is immediately followed by a deferred finish and the count has a single writer; the monitor loop evaluates its zero-handler exit condition on every path into the blocking select. Interleavings themselves are not decided.",
          "go/types+go/ssa faithful; io.Copy forwards everything it read before returning", "DESIGN.md section 4, C19"),
